@@ -658,7 +658,7 @@ def mk_mutate(space, op, rng):
 
 
 # ============================================================================= strategies: shared pieces
-SEED = st.integers(0, 2**32 - 1)
+SEED = st.one_of(st.integers(0, 2**32 - 1), st.integers(0, 2**32 - 1), st.integers(0, 2**32 - 1), st.integers(0, 2**32 - 1), st.sampled_from([0, 0, 1]))  # seed=0 is falsy: ~13 % of cases
 SMALL = st.integers(-3, 3)
 SCALE = st.sampled_from([1, 1, 1, 0.5, 0.125])
 DELTAS = st.sampled_from([[-1, 1], [-2, -1, 1, 2], [1], [0, 1], [-1, 0, 1], [1, 2, 3]])
